@@ -123,12 +123,12 @@ STRENGTHENED.update({
  "C08-r5m1": NOT_CAUGHT_R5 + "a LinkedHashMap of > 4096 entries cleared under a long-lived iterator",
  "C08-r5m3": NOT_CAUGHT_R5 + "a heap of >= 8191 elements read through a long-lived iterator",
  "C09-r5m1": NOT_CAUGHT_R5 + ">= 512 arguments in one LinkedHashSet.Remove AND a long-lived iterator rewound afterwards",
- "C09-r5m2": NOT_CAUGHT_R5 + "a key type with a normalising UnmarshalText",
+ "C09-r5m2": R5 + "missed at first (a key type with a normalising UnmarshalText); caught since the key-type families of internal/keytypes (uint64 up to 2^64-1, int8, named int64/string with String methods, text-marshalling integer, struct and string keys) joined C09, C11 and C12",
  "C09-r5m3": NOT_CAUGHT_R5 + ">= 4096 entries, an odd count, and the removal of the exact middle key",
- "C11-r5m1": NOT_CAUGHT_R5 + "a defined key type with a String method",
+ "C11-r5m1": R5 + "missed at first (a defined key type with a String method); caught since the key-type families of internal/keytypes (uint64 up to 2^64-1, int8, named int64/string with String methods, text-marshalling integer, struct and string keys) joined C09, C11 and C12",
  "C11-r5m2": NOT_CAUGHT_R5 + "a DoublyLinkedList whose size is an exact multiple of 4096 at a serialisation point",
- "C11-r5m3": NOT_CAUGHT_R5 + "uint64 keys >= 2^63 in a LinkedHashMap document",
- "C12-r5m1": NOT_CAUGHT_R5 + "a key type with a normalising UnmarshalText",
+ "C11-r5m3": R5 + "missed at first (uint64 keys >= 2^63 in a LinkedHashMap document); caught since the key-type families of internal/keytypes (uint64 up to 2^64-1, int8, named int64/string with String methods, text-marshalling integer, struct and string keys) joined C09, C11 and C12",
+ "C12-r5m1": R5 + "missed at first (a key type with a normalising UnmarshalText); caught since the key-type families of internal/keytypes (uint64 up to 2^64-1, int8, named int64/string with String methods, text-marshalling integer, struct and string keys) joined C09, C11 and C12",
  "C12-r5m2": NOT_CAUGHT_R5 + "a document of >= 64 KiB with struct elements that omit fields",
  "C12-r5m3": NOT_CAUGHT_R5 + "two goroutines LOADING two different maps at the same time (package-level buffer; the checks run concurrent readers only — C18's claim — and loads sequentially)",
  "C14-r5m1": NOT_CAUGHT_R5 + "131072 descending inserts into a TreeMap",
@@ -141,6 +141,22 @@ STRENGTHENED.update({
 })
 # seeds whose defect belongs to another property's clause: checks tried when the own check stays silent
 CROSS = {"C01-r5m2": ["C02"], "C02-r5m3": ["C04"], "C10-r5m1": ["C01"], "C13-r5m3": ["C02"], "C15-r5m1": ["C03"], "C15-r5m2": ["C05"], "C03-r3m3": ["C16"], "C03-r4m2": ["C16"], "C02-r4m2": ["C14"]}
+
+R6 = "round 6 (independent; themes: two cooperating sites, a multi-step history, a modernisation pull request); "
+STRENGTHENED.update({
+ "C01-r6m1": R6 + "missed at first (bidirectional maps with many-to-one comparators were compared modulo the comparator); the TreeBidiMap many-to-one target now pins exact representatives (Get(k)=v and GetKey(v)=k name each other exactly, Values() is the multiset of current values) and is hosted by C01 as well as C10",
+ "C01-r6m2": R6 + "missed at first by C01 (its histories had no load that fails; C12 caught it from the start: atomic on error); C01's load ops may now be spoiled (a well-formed document with a mistyped value, a truncated one): the load must be rejected and is then neither a Put nor a Remove nor a Clear",
+ "C01-r6m3": R6 + "missed at first by C01 (no null document in its histories; C12 and C17 caught it from the start — C12 only after its native fuzz target's seed-corpus run was made to recover panics instead of killing the shard, which had turned the verdict into INCONCLUSIVE); C01's load ops now include null followed by further Puts",
+ "C03-r6m3": R6 + "missed at first (lists of interface-typed elements never held unhashable values); C03 gained a target with List[any] holding nested arrays and objects (as FromJSON of a nested document produces), probed with comparable scalars",
+ "C09-r6m2": R6 + "missed at first by C09 (only fresh iterators; C08's rewound-after-mutation target caught it from the start); C09 now keeps ONE iterator per container from the start and rewinds it (Begin / End) after every step",
+ "C10-r6m2": R6 + "missed at first (soak histories used 2..9 keys: no high-water mark); C10 gained a tides target: grow to 20..280 pairs, shrink by Clear or by removals down to a drawn rest, then Puts that collide on key and value at once, up to three tides",
+ "C13-r6m1": R6 + "missed at first (TreeSets were only made by NewWith); one TreeSet case in six now uses the default constructor treeset.New, together with the derived operands (Select, Map, Union, reload) that were already there",
+ "C13-r6m3": R6 + "missed at first (int members only); C13 gained float64 targets (NaN, the two zeros, the infinities): a NaN is never in the other set, so an intersection holds none and a difference keeps the receiver's",
+ "C14-r6m1": R6 + "missed at first by C14 (receivers were always built directly, with spare capacity; C18's purity check caught it from the start); receivers may now have a past: grown and shrunk again, loaded by FromJSON, filled and cleared",
+ "C14-r6m2": R6 + "missed at first (every enumerable function was called once on a receiver that never changed again; C18 saw the cache field from the start); C14 now adds elements to the receiver after the first round and checks everything a second time",
+ "C17-r6m2": R6 + "NOT caught, by decision (as C17-r4m1): it needs an iterator that keeps being used after Remove of the element it stands on WITHOUT being rewound; iterator use across a modification is outside documented use (README: unsafe to remove while iterating) and panics on the unchanged tree for four iterator types already",
+})
+CROSS.update({"C01-r6m2": ["C12"], "C01-r6m3": ["C12", "C17"], "C09-r6m2": ["C08"], "C14-r6m1": ["C18"], "C14-r6m2": ["C18"]})
 
 from concurrent.futures import ThreadPoolExecutor
 args = sys.argv[1:]
